@@ -7,7 +7,7 @@ p=$1; only=${2:-}
 rm -rf .work/$p-*
 if [ -n "$only" ]; then ./check -keep -no-evidence -only "$only" $p quick >/dev/null 2>&1; else ./check -keep -no-evidence $p quick >/dev/null 2>&1; fi
 d=$(ls -dt .work/$p-* | head -1)
-for f in $d/*.smt2; do
+for f in $(ls $d/*.smt2 | grep -v sliced); do
   ok=0; tot=0
   for seed in 0 1 2 3 4; do
     r=$(z3-new -T:10 smt.random_seed=$seed sat.random_seed=$seed $f 2>/dev/null | head -1)
